@@ -12,19 +12,19 @@
     C12_rest, C12_rest_output   initial state zero; zero state and zero input give zero output;
     C12_input_order        row k of `_u` is the waveform supplied for `sources[k]`;
     C12_output_sample      sample t of an output is row_c·x_t + row_d·u_t.
-    C12_sample_is_circuit  the per-sample network (capacitor k ↦ current source C_k·ẋ_k, inductor
-                           k ↦ voltage source L_k·ẋ_k, sources at u) has the same nodal matrix as the
-                           w = 0 network, so by C01_sound every y with Ã y = mnaB(sampleNet) reports
-                           values that satisfy KCL at every node, KVL and every element law;
-    C12_kcl_sample_of_rhs, C12_element_laws_of_rhs   its KCL / element-law projections.
-  Open: C12_sample_rhs_statement (the right-hand side of the sample network IS the model's
-  QS·u + DQ·Λ·ẋ — index bookkeeping; with it C12_sample_equations + C12_sample_is_circuit give)
-  C12_kcl_sample_statement, C12_element_laws_statement; C12_periodic_steady_statement.
+    C12_sample_rhs         the right-hand side of the per-sample network (capacitor k ↦ current source
+                           C_k·ẋ_k, inductor k ↦ voltage source L_k·ẋ_k, sources at u) IS the model's
+                           QS·u + DQ·Λ·ẋ (CC/Proofs/StateRhs.lean);
+    C12_sample_circuit     hence (same nodal matrix + C01_sound) for EVERY x, u the outputs y = C x + D u
+                           of the executable model satisfy the circuit equations of that network:
+    C12_kcl_sample         Kirchhoff's current law at every node at every sample,
+    C12_element_laws       every element law (capacitor i = C·v̇, inductor v = L·i̇ with ẋ = A x + B u,
+                           resistors, sources = their waveforms), and KVL / reference (C12_kvl_sample);
+    C12_periodic_steady    the frequency response of the simulated system at any s (each harmonic
+                           j·k·w₀) is the phasor solution at s (= C10_transfer).
+  Nothing of the algebraic clauses is left open; `lsim` (the integrator) stays in the trusted base.
 -/
-import CC.Proofs.StateModel
-import CC.Spec.StateSpace
-import CC.Properties.C10
-import CC.Proofs.StateCircuit
+import CC.Proofs.StatePhasor
 
 set_option linter.unusedSectionVars false
 
@@ -93,91 +93,90 @@ theorem C12_output_sample (nS : Nat) (rc rd : List K) (X U : List (List K)) (t :
 
 end
 
-/-! ### the per-sample network is solved (C01 applied to the substituted network) -/
+/-! ### the per-sample circuit -/
 
 section
 variable {L K : Type} [DecidableEq L] [LabelOrd L] [Field K] [DecidableEq K]
 
-/-- For the `w = 0` network of an RLC circuit (distinct ids, no self-loops, capacitors open,
-inductors shorted): any `y` with `Ã y = mnaB (sampleNet … u ẋ)` reports a solution of the circuit
-equations of the sample network — reference at zero, voltages = potential differences, every
-element law (capacitor current `C_k·ẋ_k`, inductor voltage `L_k·ẋ_k`, sources at `u`, resistors),
-Kirchhoff's current law at every node. -/
-theorem C12_sample_is_circuit (N : Net L K) (cvals lvals : ValDict K) (sources : List String)
-    (u xdot y : List K) (wf : N.WF) (hp : ReactivePlaceholders N cvals lvals)
-    (hy : y.length = N.nodes.length + N.vsIds.length)
-    (h : matVec N.mnaA y = (sampleNet N cvals lvals sources u xdot).mnaB) :
-    CircuitEqs (sampleNet N cvals lvals sources u xdot) ((sampleNet N cvals lvals sources u xdot).reportOf y) :=
-  sample_is_circuit N cvals lvals sources u xdot y wf hp hy h
-
-theorem C12_kcl_sample_of_rhs (N : Net L K) (cvals lvals : ValDict K) (sources : List String)
-    (u xdot y : List K) (wf : N.WF) (hp : ReactivePlaceholders N cvals lvals)
-    (hy : y.length = N.nodes.length + N.vsIds.length)
-    (h : matVec N.mnaA y = (sampleNet N cvals lvals sources u xdot).mnaB) :
-    ∀ n ∈ (sampleNet N cvals lvals sources u xdot).allLabels,
-      kclResidual (sampleNet N cvals lvals sources u xdot)
-        ((sampleNet N cvals lvals sources u xdot).reportOf y) n = 0 :=
-  (C12_sample_is_circuit N cvals lvals sources u xdot y wf hp hy h).kcl
-
-theorem C12_element_laws_of_rhs (N : Net L K) (cvals lvals : ValDict K) (sources : List String)
-    (u xdot y : List K) (wf : N.WF) (hp : ReactivePlaceholders N cvals lvals)
-    (hy : y.length = N.nodes.length + N.vsIds.length)
-    (h : matVec N.mnaA y = (sampleNet N cvals lvals sources u xdot).mnaB) :
-    ∀ b ∈ (sampleNet N cvals lvals sources u xdot).branches,
-      b.e.lawResidual (((sampleNet N cvals lvals sources u xdot).reportOf y).v b.id)
-        (((sampleNet N cvals lvals sources u xdot).reportOf y).i b.id) = 0 :=
-  (C12_sample_is_circuit N cvals lvals sources u xdot y wf hp hy h).law
-
-end
-
-/-- OPEN (index bookkeeping only).  The right-hand side of the sample network is the model's
-`QS·u + DQ·Λ·ẋ`: node rows collect the source currents `u_k` and the capacitor currents
-`C_k·ẋ_k` with the signs of `source_incidence_matrix` / `Delta`, voltage-source rows carry the
-source voltages `u_k` and the inductor voltages `L_k·ẋ_k`. -/
-def C12_sample_rhs_statement : Prop :=
-  ∀ (K : Type) [Field K] [DecidableEq K] (N : Net String K) (cvals lvals : ValDict K)
-    (Delta : List (List K)) (u xdot : List K),
-    RLCSetting N cvals lvals → ssDelta N cvals = .ok Delta →
-    u.length = ssNInputs N lvals → xdot.length = ssNStates N cvals lvals →
+/-- the right-hand side of the per-sample network is the model's `QS·u + DQ·(Λ·ẋ)` -/
+theorem C12_sample_rhs {N : Net L K} {cvals lvals : ValDict K} {Delta : List (List K)} (h : RLC N cvals lvals)
+    (hD : ssDelta N cvals = .ok Delta) (u xdot : List K)
+    (hu : u.length = ssNInputs N lvals) (hx : xdot.length = ssNStates N cvals lvals) :
     (sampleNet N cvals lvals (ssSources N lvals) u xdot).mnaB
       = Mx.vecAdd (matVec (ssQS N lvals) u)
-          (matVec (ssDQ N cvals lvals Delta) (List.zipWith (· * ·) (ssLambda cvals lvals) xdot))
+          (matVec (ssDQ N cvals lvals Delta) (List.zipWith (· * ·) (ssLambda cvals lvals) xdot)) :=
+  sample_rhs h hD u xdot hu hx
 
-/-! ### open statements -/
+/-- **Every sample solves the circuit.**  For the `w = 0` network of an RLC + ideal-source circuit,
+the model's matrices (any certificates) and ANY state `x` and input `u` — hence for every integrator —
+the reported potentials, voltages and currents (`y = C x + D u` read through the accessors) satisfy
+the circuit equations of the circuit at that sample: capacitor `k` carries `C_k·ẋ_k`, inductor `k`
+has the voltage `L_k·ẋ_k` with `ẋ = A x + B u`, every source has its instantaneous value `u`. -/
+theorem C12_sample_circuit {N : Net L K} {cvals lvals : ValDict K} {Ainv S Delta : List (List K)}
+    {m : SSMats K} (h : RLC N cvals lvals) (hD : ssDelta N cvals = .ok Delta)
+    (hm : stateSpaceMatrices N cvals lvals Ainv S = .ok m)
+    (hc : ModelCert id N cvals lvals Ainv S Delta)
+    (x : Fin (ssNStates N cvals lvals) → K) (u : Fin (ssNInputs N lvals) → K) :
+    let y := toM N.nY (ssNStates N cvals lvals) m.C *ᵥ x + toM N.nY (ssNInputs N lvals) m.D *ᵥ u
+    let xdot := toM (ssNStates N cvals lvals) (ssNStates N cvals lvals) m.A *ᵥ x
+                + toM (ssNStates N cvals lvals) (ssNInputs N lvals) m.B *ᵥ u
+    let P := sampleNet N cvals lvals (ssSources N lvals) (List.ofFn u) (List.ofFn xdot)
+    CircuitEqs P (P.reportOf (List.ofFn y)) :=
+  model_sample_circuit h hD hm hc x u
 
-/-- the circuit equations of the network at one sample, for the values the output rows report -/
-def sampleEqs {K : Type} [Field K] [DecidableEq K] (N : Net String K) (cvals lvals : ValDict K)
-    (m : SSMats K) (x u : List K) : Prop :=
-  let xdot := Mx.vecAdd (matVec m.A x) (matVec m.B u)
-  let P := sampleNet N cvals lvals (ssSources N lvals) u xdot
-  CircuitEqs P (reportOf N P (Mx.vecAdd (matVec m.C x) (matVec m.D u)))
+/-- Kirchhoff's current law at every node (reference included), every sample -/
+theorem C12_kcl_sample {N : Net L K} {cvals lvals : ValDict K} {Ainv S Delta : List (List K)}
+    {m : SSMats K} (h : RLC N cvals lvals) (hD : ssDelta N cvals = .ok Delta)
+    (hm : stateSpaceMatrices N cvals lvals Ainv S = .ok m)
+    (hc : ModelCert id N cvals lvals Ainv S Delta)
+    (x : Fin (ssNStates N cvals lvals) → K) (u : Fin (ssNInputs N lvals) → K) :
+    let y := toM N.nY (ssNStates N cvals lvals) m.C *ᵥ x + toM N.nY (ssNInputs N lvals) m.D *ᵥ u
+    let xdot := toM (ssNStates N cvals lvals) (ssNStates N cvals lvals) m.A *ᵥ x
+                + toM (ssNStates N cvals lvals) (ssNInputs N lvals) m.B *ᵥ u
+    let P := sampleNet N cvals lvals (ssSources N lvals) (List.ofFn u) (List.ofFn xdot)
+    ∀ n ∈ P.allLabels, kclResidual P (P.reportOf (List.ofFn y)) n = 0 :=
+  (model_sample_circuit h hD hm hc x u).kcl
 
-/-- OPEN.  At every sample — for every state `x` and input `u` — the reported potentials,
-voltages and currents satisfy Kirchhoff's current law at every node of the circuit in which
-capacitor `k` carries `C_k·ẋ_k` and inductor `k` has the voltage `L_k·ẋ_k`. -/
-def C12_kcl_sample_statement : Prop :=
-  ∀ (K : Type) [Field K] [DecidableEq K] (N : Net String K) (cvals lvals : ValDict K)
-    (Ainv S Delta : List (List K)) (m : SSMats K) (x u : List K),
-    RLCSetting N cvals lvals → ssDelta N cvals = .ok Delta →
-    stateSpaceMatrices N cvals lvals Ainv S = .ok m → ModelCert id N cvals lvals Ainv S Delta →
-    x.length = ssNStates N cvals lvals → u.length = ssNInputs N lvals →
-    ∀ n ∈ N.allLabels,
-      let xdot := Mx.vecAdd (matVec m.A x) (matVec m.B u)
-      let P := sampleNet N cvals lvals (ssSources N lvals) u xdot
-      kclResidual P (reportOf N P (Mx.vecAdd (matVec m.C x) (matVec m.D u))) n = 0
+/-- every element law, every sample: resistor `v = R·i`, source = its waveform, capacitor
+`i = C·ẋ_k`, inductor `v = L·ẋ_k` -/
+theorem C12_element_laws {N : Net L K} {cvals lvals : ValDict K} {Ainv S Delta : List (List K)}
+    {m : SSMats K} (h : RLC N cvals lvals) (hD : ssDelta N cvals = .ok Delta)
+    (hm : stateSpaceMatrices N cvals lvals Ainv S = .ok m)
+    (hc : ModelCert id N cvals lvals Ainv S Delta)
+    (x : Fin (ssNStates N cvals lvals) → K) (u : Fin (ssNInputs N lvals) → K) :
+    let y := toM N.nY (ssNStates N cvals lvals) m.C *ᵥ x + toM N.nY (ssNInputs N lvals) m.D *ᵥ u
+    let xdot := toM (ssNStates N cvals lvals) (ssNStates N cvals lvals) m.A *ᵥ x
+                + toM (ssNStates N cvals lvals) (ssNInputs N lvals) m.B *ᵥ u
+    let P := sampleNet N cvals lvals (ssSources N lvals) (List.ofFn u) (List.ofFn xdot)
+    ∀ b ∈ P.branches, b.e.lawResidual ((P.reportOf (List.ofFn y)).v b.id) ((P.reportOf (List.ofFn y)).i b.id) = 0 :=
+  (model_sample_circuit h hD hm hc x u).law
 
-/-- OPEN.  … and every element obeys its own law at every sample (resistors, sources; capacitor
-current `C·v̇`, inductor voltage `L·i̇` with `ẋ = A x + B u`). -/
-def C12_element_laws_statement : Prop :=
-  ∀ (K : Type) [Field K] [DecidableEq K] (N : Net String K) (cvals lvals : ValDict K)
-    (Ainv S Delta : List (List K)) (m : SSMats K) (x u : List K),
-    RLCSetting N cvals lvals → ssDelta N cvals = .ok Delta →
-    stateSpaceMatrices N cvals lvals Ainv S = .ok m → ModelCert id N cvals lvals Ainv S Delta →
-    x.length = ssNStates N cvals lvals → u.length = ssNInputs N lvals →
-    sampleEqs N cvals lvals m x u
+/-- Kirchhoff's voltage law and the reference potential, every sample -/
+theorem C12_kvl_sample {N : Net L K} {cvals lvals : ValDict K} {Ainv S Delta : List (List K)}
+    {m : SSMats K} (h : RLC N cvals lvals) (hD : ssDelta N cvals = .ok Delta)
+    (hm : stateSpaceMatrices N cvals lvals Ainv S = .ok m)
+    (hc : ModelCert id N cvals lvals Ainv S Delta)
+    (x : Fin (ssNStates N cvals lvals) → K) (u : Fin (ssNInputs N lvals) → K) :
+    let y := toM N.nY (ssNStates N cvals lvals) m.C *ᵥ x + toM N.nY (ssNInputs N lvals) m.D *ᵥ u
+    let xdot := toM (ssNStates N cvals lvals) (ssNStates N cvals lvals) m.A *ᵥ x
+                + toM (ssNStates N cvals lvals) (ssNInputs N lvals) m.B *ᵥ u
+    let P := sampleNet N cvals lvals (ssSources N lvals) (List.ofFn u) (List.ofFn xdot)
+    (P.reportOf (List.ofFn y)).pot P.zero = 0 ∧ ∀ b ∈ P.branches, voltResidual (P.reportOf (List.ofFn y)) b = 0 :=
+  ⟨(model_sample_circuit h hD hm hc x u).ref_zero, (model_sample_circuit h hD hm hc x u).volt⟩
 
-/-- OPEN.  Periodic steady state: the frequency response of the simulated system at each
-harmonic `s = j·k·w₀` is the phasor solution at that frequency — C10's transfer statement. -/
-def C12_periodic_steady_statement : Prop := C10_transfer_statement
+/-- periodic steady state: at every complex frequency `s` — each harmonic `j·k·w₀` of a periodic
+excitation — the response of the simulated system `(A, B, C, D)` is the phasor solution at `s` -/
+theorem C12_periodic_steady {N : Net L K} {cvals lvals : ValDict K} {Ainv S Delta : List (List K)}
+    {m : SSMats K} (h : RLC N cvals lvals) (hD : ssDelta N cvals = .ok Delta)
+    (hm : stateSpaceMatrices N cvals lvals Ainv S = .ok m)
+    (hc : ModelCert id N cvals lvals Ainv S Delta)
+    (s : K) (x : Fin (ssNStates N cvals lvals) → K) (u : Fin (ssNInputs N lvals) → K)
+    (hx : s • x = toM _ _ m.A *ᵥ x + toM _ _ m.B *ᵥ u) :
+    let y := toM N.nY (ssNStates N cvals lvals) m.C *ᵥ x + toM N.nY (ssNInputs N lvals) m.D *ᵥ u
+    let P := sampleNet N cvals lvals (ssSources N lvals) (List.ofFn u) (List.ofFn (s • x))
+    CircuitEqs (phasorNet N cvals lvals (ssSources N lvals) (List.ofFn u) s) (P.reportOf (List.ofFn y)) :=
+  model_transfer h hD hm hc s x u hx
+
+end
 
 end CC
